@@ -72,6 +72,12 @@ def judge_text(run, text, b0, interps, cards, how, case, as_script):
             else:
                 tb = smtref.read_term(text, decls, strict=False, extra_sorts=xs)
     except smtref.IllFormed as e:
+        if e.cls == "undeclared" and "'pow'" in str(e) and "POW" in B.ops_of(b0):
+            # its own class: the power operator is printed with a name SMT-LIB does not have
+            run.fail({"subcheck": "smtlib:illformed", "class": "pow-is-not-an-smtlib-symbol"}, case,
+                     "%s writes a power as (pow ...), which no SMT-LIB theory declares: %s\n formula=%s\n text=%s" % (
+                         how, e, show(b0), text[:300]))
+            return
         run.fail({"subcheck": "smtlib:illformed", "class": e.cls, "printer": how.split("/")[0]}, case,
                  "%s output is not well-formed SMT-LIB: %s\n formula=%s\n text=%s" % (how, e, show(b0), text[:700]))
         return
@@ -194,7 +200,8 @@ CFGS = [Cfg(max_depth=4, quant_unbounded=True, sorts=PSORTS, quant_types=[BOOL, 
         Cfg(max_depth=3, theories={"bool", "int", "real", "str", "arr", "uf", "sort", "quant"}, quant_unbounded=True,
             sorts=PSORTS),
         Cfg(max_depth=4, theories={"bool", "bv", "arr", "uf", "quant"}, bv_widths=[1, 2, 4, 8, 33]),
-        Cfg(max_depth=2, share=10)]
+        Cfg(max_depth=2, share=10),
+        Cfg(max_depth=3, theories={"bool", "int", "real"}, pow=True)]
 
 
 def gen_case(rnd, k):
@@ -253,6 +260,10 @@ def check_multi_script(run, bps, g, cards):
         try:
             rs = smtref.read_script(text, strict=True)
         except smtref.IllFormed as e:
+            if e.cls == "undeclared" and "'pow'" in str(e) and any("POW" in B.ops_of(b) for b in bs):
+                run.fail({"subcheck": "smtlib:illformed", "class": "pow-is-not-an-smtlib-symbol"}, case,
+                         "%s writes a power as (pow ...), which no SMT-LIB theory declares\n text=%s" % (how, text[:300]))
+                continue
             run.fail({"subcheck": "smtlib:illformed", "class": e.cls, "printer": "multi-script"}, case,
                      "%s is not well-formed SMT-LIB: %s\n text=%s" % (how, e, text[:900]))
             continue
